@@ -110,19 +110,15 @@ def search (pat : List Tok) : Bytes → Bool
   | [] => matchHere pat []
   | s@(_ :: t) => matchHere pat s || search pat t
 
-/-- characters the model interprets literally (no regexp meaning) -/
-def isPlain (c : UInt8) : Bool := Sign.isAlnum c || c = 95 || c = 45 || c = 32 || c = 47
+/-- the line is in the modelled domain: printable ASCII (the pattern is quoted, so every character
+    except `*` in a non-directory line is literal) -/
+def lineOK (l : Bytes) : Bool := l.all (fun c => 32 ≤ c && c ≤ 126)
 
-/-- the line is in the modelled domain: plain characters, `.`, and `*` only in non-directory lines -/
-def lineOK (l : Bytes) : Bool :=
-  if List.elem (47 : UInt8) l then l.all (fun c => isPlain c || c = 46)
-  else l.all (fun c => isPlain c || c = 46 || c = 42)
-
-/-- `Ignore.load` per line: a line containing `/` becomes `line.*` (dots stay wildcards);
-    otherwise `.`→`\.` and `*`→`.*` -/
+/-- `Ignore.load` per line (repaired: the text is quoted with `regexp.QuoteMeta`): a line containing
+    `/` becomes `<literal line>.*`; otherwise every `*` becomes `.*` and the rest is literal -/
 def compile (l : Bytes) : List Tok :=
-  if List.elem (47 : UInt8) l then l.map (fun c => if c = 46 then .any else .lit c) ++ [.star]
-  else l.map (fun c => if c = 46 then .lit 46 else if c = 42 then .star else .lit c)
+  if List.elem (47 : UInt8) l then l.map (fun c => Tok.lit c) ++ [.star]
+  else l.map (fun c => if c = 42 then .star else .lit c)
 
 def metaPrefix : Bytes := asc ".goit/"
 
